@@ -85,7 +85,7 @@ func (d *szNackGen) Reset(tb testing.TB, sc *szScript) map[string]int {
 	d.ic.BindRTCPWriter(interceptor.RTCPWriterFunc(func(p []rtcp.Packet, _ interceptor.Attributes) (int, error) {
 		for _, pkt := range p { // (runs on the loop goroutine, which holds no lock while it writes)
 			if n, ok := pkt.(*rtcp.TransportLayerNack); ok && d.pending != 0 && n.MediaSSRC == d.pending && !d.didUnbind {
-				d.ic.UnbindRemoteStream(szNackInfo(d.pending, true))
+				d.ic.UnbindRemoteStream(szNackInfo(d.pending, d.pending%2 == 1))
 				d.didUnbind = true
 			}
 		}
@@ -111,7 +111,7 @@ func (d *szNackGen) Unbind(ssrc uint32) {
 		d.pending = 0
 	}
 	if !d.didUnbind {
-		d.ic.UnbindRemoteStream(szNackInfo(ssrc, true))
+		d.ic.UnbindRemoteStream(szNackInfo(ssrc, ssrc%2 == 1)) // (the stream is named by its SSRC; even SSRCs: without the feedback list)
 	}
 	d.didUnbind = false
 	delete(d.readers, ssrc)
@@ -185,7 +185,7 @@ func (d *szNackResp) Bind(ssrc uint32, enabled bool) {
 }
 
 func (d *szNackResp) Unbind(ssrc uint32) {
-	d.ic.UnbindLocalStream(szNackInfo(ssrc, true))
+	d.ic.UnbindLocalStream(szNackInfo(ssrc, ssrc%2 == 1))
 	delete(d.writers, ssrc)
 }
 
